@@ -7,9 +7,11 @@ every view / every block / every chain (induction), under the well-formedness th
 verification enforces (`Valid`, `ValidChain`, `WellFormed`).  `find_fork` itself (how the node
 computes `det` / `att`) is tied by the correspondence run, not proved here.
 
-Two rows are *not* functions of the main chain in the code as written; the model mirrors the code
-and the witnesses are kept here: `epoch_number_row_not_replay` (finding F9) and
-`current_epoch_stale_after_truncate` (finding F12).
+The epoch-number row (`COLUMN_EPOCH[number]`) is part of the proved view since the repair of
+finding F9 (/repo commit e69f9a7): `attach_block` / `detach_block` maintain it.  The pre-repair
+behaviour is kept as `Store.PreFix` with its regression witness `epoch_number_row_not_replay_prefix`.
+One row is still *not* a function of the main chain in the code as written; the model mirrors the
+code and the witness is kept: `current_epoch_stale_after_truncate` (finding F12).
 -/
 import CkbVerif.Lemmas.StoreInv
 namespace CkbVerif.C02
@@ -54,30 +56,67 @@ theorem cellsConsistent_replay (g : Block) (rest : List Block) (h : WellFormed g
     CellsConsistent (replay (g :: rest)).m (replay (g :: rest)).r :=
   cellsConsistent_attachAll (cellsConsistent_init g h.1) h.2
 
-/-- the cell / tx-info / index / uncles writes of a list of blocks, without tip and epoch -/
-def attachAllM (m : Main) : List Block → Main
+/-- the cell / tx-info / index / uncles / epoch-number writes of a list of blocks, without tip and
+current epoch; `ef` is the epoch `attach_block` finds for a block -/
+def attachAllM (ef : Block → Option EpochRec) (m : Main) : List Block → Main
   | [] => m
-  | b :: bs => attachAllM (attachCell (attach m b) b) bs
+  | b :: bs => attachAllM ef (attachCell (attach m (ef b) b) b) bs
 
-theorem attachAllM_withTC (m : Main) (t c) (bs : List Block) :
-    attachAllM (m.withTC t c) bs = (attachAllM m bs).withTC t c := by
+theorem attachAllM_withTC (ef) (m : Main) (t c) (bs : List Block) :
+    attachAllM ef (m.withTC t c) bs = (attachAllM ef m bs).withTC t c := by
   induction bs generalizing m with
   | nil => rfl
   | cons b bs ih =>
     simp only [attachAllM]
-    have : attachCell (attach (m.withTC t c) b) b = (attachCell (attach m b) b).withTC t c := by
+    have : attachCell (attach (m.withTC t c) (ef b) b) b = (attachCell (attach m (ef b) b) b).withTC t c := by
       simp only [attachCell]
-      have h : attach (m.withTC t c) b = (attach m b).withTC t c := rfl
+      have h : attach (m.withTC t c) (ef b) b = (attach m (ef b) b).withTC t c := rfl
       rw [h, insertCells_withTC, deleteCells_withTC]
     rw [this, ih]
 
-theorem reconcile_m (v : View) (bs : List Block) : (reconcile v bs).m = attachAllM v.m bs := by
+theorem epochOf_reconcileOne (v : View) (b : Block) (id : Nat) :
+    epochOf (reconcileOne v b).r id = epochOf v.r id := by
+  simp only [reconcileOne]
+  split
+  · split <;> rfl
+  · rfl
+
+theorem reconcile_m (v : View) (bs : List Block) :
+    (reconcile v bs).m = attachAllM (fun b => epochOf v.r b.id) v.m bs := by
   induction bs generalizing v with
   | nil => rfl
-  | cons b bs ih => simp only [reconcile, attachAllM]; rw [ih]; rfl
+  | cons b bs ih =>
+    simp only [reconcile, attachAllM]
+    rw [ih]
+    have : (fun x : Block => epochOf (reconcileOne v b).r x.id) = fun x => epochOf v.r x.id := by
+      funext x; exact epochOf_reconcileOne v b x.id
+    rw [this]
+    rfl
+
+/-- looking the epoch up through the records (`attach_block`) and writing it for epoch heads only
+(the reference store) are the same number-row write when the record is the block's own epoch -/
+theorem attachAllM_congr (ef : Block → Option EpochRec) (m : Main) (bs : List Block)
+    (h : ∀ a ∈ bs, ef a = some a.epochRec ∧ (a.isHead = true ↔ a.epochRec.start = a.number)) :
+    attachAllM ef m bs = attachAllM headEpoch m bs := by
+  induction bs generalizing m with
+  | nil => rfl
+  | cons b bs ih =>
+    simp only [attachAllM]
+    have hb := h b (by simp)
+    have : attach m (ef b) b = attach m (headEpoch b) b := by
+      have he : attachEpochNum m.epochNum (ef b) b = attachEpochNum m.epochNum (headEpoch b) b := by
+        rw [hb.1]
+        unfold attachEpochNum headEpoch
+        by_cases hh : b.isHead = true
+        · simp [hh]
+        · have : ¬ b.epochRec.start = b.number := fun hs => hh (hb.2.mpr hs)
+          simp [hh, this]
+      simp only [attach, he]
+    rw [this]
+    exact ih _ (fun a ha => h a (List.mem_cons_of_mem _ ha))
 
 theorem attachAll_m (v : View) (bs : List Block) (b : Block) (hl : bs.getLast? = some b) :
-    (attachAll v bs).m = (attachAllM v.m bs).withTC (some b.id) (some b.epochRec) := by
+    (attachAll v bs).m = (attachAllM headEpoch v.m bs).withTC (some b.id) (some b.epochRec) := by
   induction bs generalizing v with
   | nil => simp at hl
   | cons a as ih =>
@@ -89,9 +128,9 @@ theorem attachAll_m (v : View) (bs : List Block) (b : Block) (hl : bs.getLast? =
       have hl' : (a2 :: as2).getLast? = some b := by simpa [List.getLast?_cons_cons] using hl
       simp only [attachAll, attachAllM] at ih ⊢
       rw [ih (attachOne v a) hl']
-      show (attachAllM (attachCell (attach (attachOneM v.m a) a2) a2) as2).withTC _ _ = _
+      show (attachAllM headEpoch (attachCell (attach (attachOneM v.m a) (headEpoch a2) a2) a2) as2).withTC _ _ = _
       rw [attachOneM_eq]
-      have := attachAllM_withTC (attachCell (attach v.m a) a) (some a.id) (some a.epochRec) (a2 :: as2)
+      have := attachAllM_withTC headEpoch (attachCell (attach v.m (headEpoch a) a) a) (some a.id) (some a.epochRec) (a2 :: as2)
       simp only [attachAllM] at this
       rw [this]
       rfl
@@ -105,8 +144,8 @@ block, and with the tx-info rows deleted *before* the spent cells are rebuilt th
 theorem detach_attach_cell (m : Main) (r r' : Recs) (b : Block)
     (hc : CellsConsistent m r) (hv : Valid m r b)
     (hext : ∀ id blk, r.bodies id = some blk → r'.bodies id = some blk) :
-    detachCell (detach (attachCell (attach m b) b) b) r' b = m :=
-  detach_attach m r r' b hc hv hext
+    detachCell (detach (attachCell (attach m (headEpoch b) b) b) (some b.epochRec) b) r' b = m :=
+  detach_attach m r r' b (headEpoch b) (some b.epochRec) hc hv hext (epochNum_undo hv)
 
 /-- the consistency invariant that makes the undo exact holds on every replayed chain -/
 theorem replay_cells_consistent (g : Block) (rest : List Block) (h : WellFormed g rest) :
@@ -126,7 +165,8 @@ extends the tip inside its epoch). -/
 theorem reorg_eq_replay (g : Block) (pre det att : List Block) (b : Block) (r' : Recs)
     (hwf : WellFormed g (pre ++ det))
     (hlast : att.getLast? = some b)
-    (hext : ∀ id blk, (replay (g :: (pre ++ det))).r.bodies id = some blk → r'.bodies id = some blk)
+    (hext : RecsLe (replay (g :: (pre ++ det))).r r')
+    (hatt : ∀ a ∈ att, epochOf r' a.id = some a.epochRec ∧ (a.isHead = true ↔ a.epochRec.start = a.number))
     (hcur : b.isHead = true ∨ det ≠ [] ∨ (replay (g :: pre)).m.curEpoch = some b.epochRec) :
     (commitBest ⟨(replay (g :: (pre ++ det))).m, r'⟩ b det att).m = (replay (g :: (pre ++ att))).m := by
   obtain ⟨hpre, hdet⟩ := validChain_append hwf.2
@@ -140,7 +180,9 @@ theorem reorg_eq_replay (g : Block) (pre det att : List Block) (b : Block) (r' :
   have heta : (attachAll V det).m.withTC (attachAll V det).m.tip (attachAll V det).m.curEpoch = (attachAll V det).m := rfl
   rw [heta] at hrb
   simp only [commitBest]
-  rw [reconcile_m, hrb, attachAllM_withTC, attachAll_m V att b hlast]
+  have hrr : (rollback ⟨(attachAll V det).m, r'⟩ det.reverse).r = r' := by simp
+  rw [reconcile_m, hrr, hrb, attachAllM_withTC, attachAll_m V att b hlast,
+    attachAllM_congr (fun b => epochOf r' b.id) V.m att hatt]
   by_cases hcond : (b.isHead || !det.isEmpty) = true
   · simp only [hcond, if_true]; rfl
   · simp only [hcond]
@@ -162,10 +204,12 @@ theorem reorg_eq_replay (g : Block) (pre det att : List Block) (b : Block) (r' :
 the replay step (this is `attachAll from genesis = replay`, one block at a time) -/
 theorem attach_replay (g : Block) (pre : List Block) (b : Block) (r' : Recs)
     (hwf : WellFormed g pre)
-    (hext : ∀ id blk, (replay (g :: pre)).r.bodies id = some blk → r'.bodies id = some blk)
+    (hext : RecsLe (replay (g :: pre)).r r')
+    (hb : epochOf r' b.id = some b.epochRec ∧ (b.isHead = true ↔ b.epochRec.start = b.number))
     (hcur : b.isHead = true ∨ (replay (g :: pre)).m.curEpoch = some b.epochRec) :
     (commitBest ⟨(replay (g :: pre)).m, r'⟩ b [] [b]).m = (replay (g :: (pre ++ [b]))).m := by
   have := reorg_eq_replay g pre [] [b] b r' (by simpa using hwf) rfl (by simpa using hext)
+    (by intro a ha; simp at ha; subst ha; exact hb)
     (by rcases hcur with h | h; exact Or.inl h; exact Or.inr (Or.inr h))
   simpa using this
 
@@ -181,7 +225,7 @@ theorem side_block_keeps_view (v : View) (b : Block)
 
 theorem truncate_eq_replay (g : Block) (pre det : List Block) (r' : Recs) (target : Nat)
     (hwf : WellFormed g (pre ++ det))
-    (hext : ∀ id blk, (replay (g :: (pre ++ det))).r.bodies id = some blk → r'.bodies id = some blk)
+    (hext : RecsLe (replay (g :: (pre ++ det))).r r')
     (htip : (replay (g :: pre)).m.tip = some target)
     (hep : (match r'.blockEpoch target with | some k => r'.epochExt k | none => none)
             = (replay (g :: pre)).m.curEpoch) :
@@ -213,7 +257,8 @@ theorem snapshot_is_commit_state (h : List View) (v : View) (k : Nat) (hk : k < 
     (publish h v)[k]? = h[k]? := by
   simp [publish, List.getElem?_append_left hk]
 
-/-! ### witnesses: the two rows the code does not keep equal to the replay -/
+/-! ### witnesses: finding F9 before / after its repair, and the row the code still does not keep
+equal to the replay (F12) -/
 
 namespace Witness
 def ZERO : Nat := 99
@@ -232,16 +277,37 @@ def b7 : Block := { id := 7, parent := 4, number := 5, epoch := ⟨1, 2, 3⟩, t
 
 def main4 : View := process (process (process (process (init g) b1) b2) b3) b4
 def afterFork : View := process (process main4 b5) b6
+/-- the same history with the pre-repair number-row behaviour -/
+def main4Pre : View := PreFix.process (PreFix.process (PreFix.process (PreFix.process (init g) b1) b2) b3) b4
+def afterForkPre : View := PreFix.process (PreFix.process main4Pre b5) b6
+/-- reorg from `g,1,2,3,4` to the fork `g,1,5,6,8,9` (which opened epoch 1 with block 6) -/
+def b8 : Block := { id := 8, parent := 6, number := 4, epoch := ⟨1, 1, 3⟩, txs := [cb 1004], uncles := [], isHead := false, epochRec := ⟨1, 3, 3, 5⟩ }
+def b9 : Block := { id := 9, parent := 8, number := 5, epoch := ⟨1, 2, 3⟩, txs := [cb 1005], uncles := [], isHead := false, epochRec := ⟨1, 3, 3, 5⟩ }
+def afterReorg : View := process (process afterFork b8) b9
 def afterTruncExtend : View := process (truncate main4 2) b7
 end Witness
 
 open Witness in
-/-- **F9.** After the lighter fork `1 ← 5 ← 6` crossed the epoch boundary, the main chain is still
-`g,1,2,3,4` (tip 4) but the epoch-number row of epoch 1 names the fork's index (block 5), whereas the
-replay of the main chain has block 2: `COLUMN_EPOCH[number]` is not a function of the main chain. -/
-theorem epoch_number_row_not_replay :
-    afterFork.m.tip = some 4 ∧ afterFork.m.index 3 = some 3 ∧
-    afterFork.r.epochNum 1 = some 5 ∧ (replay [g, b1, b2, b3, b4]).r.epochNum 1 = some 2 := by
+/-- **F9, before the repair (regression witness about `Store.PreFix`).** After the lighter fork
+`1 ← 5 ← 6` crossed the epoch boundary, the main chain is still `g,1,2,3,4` (tip 4) but the
+epoch-number row of epoch 1 named the fork's index (block 5), whereas the replay of the main chain
+has block 2. -/
+theorem epoch_number_row_not_replay_prefix :
+    afterForkPre.m.tip = some 4 ∧ afterForkPre.m.index 3 = some 3 ∧
+    afterForkPre.m.epochNum 1 = some 5 ∧ (replay [g, b1, b2, b3, b4]).m.epochNum 1 = some 2 := by
+  decide
+
+open Witness in
+/-- **F9, after the repair.** On the same history the row still names the main chain's epoch
+(block 2); when the fork later overtakes (`g,1,5,6,8,9`) the row follows it (block 5), and a
+truncation back below the boundary removes it — in each case exactly the replay's row (this is an
+instance of `reorg_eq_replay` / `truncate_eq_replay`, whose view now contains the row). -/
+theorem epoch_number_row_follows_main_chain :
+    afterFork.m.tip = some 4 ∧ afterFork.m.epochNum 1 = some 2 ∧
+    afterReorg.m.tip = some 9 ∧ afterReorg.m.epochNum 1 = some 5 ∧
+    (replay [g, b1, b5, b6, b8, b9]).m.epochNum 1 = some 5 ∧
+    (truncate afterReorg 5).m.tip = some 5 ∧ (truncate afterReorg 5).m.epochNum 1 = none ∧
+    (replay [g, b1, b5]).m.epochNum 1 = none := by
   decide
 
 open Witness in
@@ -287,8 +353,9 @@ example : WellFormed g [b1] := by
     intro o
     simp [init, attachOne, attachOneM, attachCell, attach, blockCells, outCells, insertCells, deleteCells,
       deadInputs, upd, g, Main.empty, View.empty]
-  refine ⟨⟨by decide, ?_, ?_, rfl, rfl, ?_, ?_, Or.inl rfl⟩,
-    ValidChain.cons ⟨by decide, ?_, ?_, by decide, by decide, ?_, ?_, Or.inl (by decide)⟩ (ValidChain.nil _)⟩
+  refine ⟨⟨by decide, ?_, ?_, rfl, rfl, ?_, ?_, Or.inl rfl, by decide, fun _ => rfl, Or.inl rfl, Or.inr ⟨rfl, rfl⟩⟩,
+    ValidChain.cons ⟨by decide, ?_, ?_, by decide, by decide, ?_, ?_, Or.inl (by decide), by decide,
+      (fun h => by cases h), Or.inl (by decide), Or.inl (by decide)⟩ (ValidChain.nil _)⟩
   · intro t _; rfl
   · intro o _; rfl
   · intro u hu; simp [g] at hu
@@ -312,8 +379,10 @@ example : WellFormed g [b1] := by
 open Example in
 /-- … and `reorg_eq_replay` applies to it: the reorg from `g,b1` to the sibling `g,b2` is the replay
 of `g,b2` (whole view, as functions) -/
-example (hwf : WellFormed g [b1]) :
-    (commitBest ⟨(replay [g, b1]).m, (replay [g, b1]).r⟩ b2 [b1] [b2]).m = (replay [g, b2]).m :=
-  reorg_eq_replay g [] [b1] [b2] b2 _ hwf rfl (fun _ _ h => h) (Or.inr (Or.inl (by simp)))
+example (hwf : WellFormed g [b1]) (r' : Recs) (hle : RecsLe (replay [g, b1]).r r')
+    (hrec : epochOf r' 2 = some b2.epochRec) :
+    (commitBest ⟨(replay [g, b1]).m, r'⟩ b2 [b1] [b2]).m = (replay [g, b2]).m :=
+  reorg_eq_replay g [] [b1] [b2] b2 r' hwf rfl hle
+    (by intro a ha; simp at ha; subst ha; exact ⟨hrec, by decide⟩) (Or.inr (Or.inl (by simp)))
 
 end CkbVerif.C02
